@@ -1026,7 +1026,7 @@ def getitem_cases(ctx):
 def run(ctx):
     items = []
     cases = [dict(c) for c in CORPUS]
-    nbase = ctx.n(16, 130)
+    nbase = ctx.n(16, 100)
     limit = 3 if ctx.tier == "quick" else 6
     ksample = 4 if ctx.tier == "quick" else 24
     made = 0
